@@ -50,12 +50,18 @@ class Srv(rpyc.Service):
     def exposed_boombig(self, key): self._hit(key); raise ValueError(BIG)
     def exposed_nested(self, key, cb): self._hit(key); return cb(key) + 1
     def exposed_stop(self, key): self._hit(key); raise StopIteration()
+    def exposed_boombig2(self, key): self._hit(key); raise NeedsArg(BIG)
     def exposed_odd(self, key): self._hit(key); raise Odd("not an Exception subclass", key)
     def exposed_genexit(self, key): self._hit(key); raise GeneratorExit()
 
 
 class Odd(BaseException):
     pass
+
+
+class NeedsArg(Exception):
+    def __init__(self, a):
+        Exception.__init__(self, a)
 
 
 class Cli(rpyc.Service):
@@ -157,7 +163,7 @@ def run_stream(ctx, r, n_ops):
             break
         key += 1
         c = r.random()
-        kind = r.choice(["val", "val", "ref", "boom", "big", "bigtuple", "boombig", "nested", "stop", "odd", "genexit"]) if c < 0.7 else "raw"
+        kind = r.choice(["val", "val", "ref", "boom", "big", "bigtuple", "boombig", "boombig2", "nested", "stop", "odd", "genexit"]) if c < 0.7 else "raw"
         if kind == "raw":
             raw_seq += 1
             shape = r.choice(["badshape", "badlabel", "stale", "nohandler", "unhashable", "arity"])
@@ -189,7 +195,7 @@ def run_stream(ctx, r, n_ops):
                 call, oc = (lambda k=key: root.nested(k, lambda x: x * 2)), [3, True]
                 acall = (rpyc.async_(root.nested), (key, lambda x: x * 2))
             else:
-                oc = {"ref": [3, True], "boom": [4, True], "big": [3, False], "bigtuple": [3, False], "boombig": [4, False], "stop": [4, True], "odd": [4, True], "genexit": [4, True]}[kind]
+                oc = {"ref": [3, True], "boom": [4, True], "big": [3, False], "bigtuple": [3, False], "boombig": [4, False], "boombig2": [4, False], "stop": [4, True], "odd": [4, True], "genexit": [4, True]}[kind]
                 call = (lambda k=key, m=kind: getattr(root, m)(k))
                 acall = (rpyc.async_(getattr(root, kind)), (key,))
         except EOFError:
